@@ -1,6 +1,126 @@
-/-! line protocol for C12 (stub: no model yet) -/
-namespace ObiVerif.Driver.C12
+import ObiVerif.Model.Demux
+import ObiVerif.Driver.Util
+/-! line protocol for C12
 
-def run (_line : String) : String := "bad-op"
+```
+ham <a> <b>                                   Hamming
+lev <a> <b>                                   Levenshtein
+look <seq> <delim>                            lookForTag
+rescue <seq> <delim> <taglen> <border> <indel>  lookForRescueTag
+demux <fmt> <style> <e> <indel> <K>
+      K × [ <fp> <rp> <fsp> <rsp> <fdl> <rdl> <fin> <rin> <mode> <ferr> <rerr> <fpi> <rpi> <ns>
+            ns × [ <ftag> <rtag> <sample> <experiment> <extra> ] ]
+      <id> <seq>
+      exp <n> n × [ 10 tokens ]                (generator's intent: ignored by the model)
+      hits K × [ 4 × ( <n> n × [ <begin> <end> <mismatches> ] ) ]
+```
+byte strings in hex (`-` = empty).  Result: `sheet-error`, `panic`, `fatal` or
+`ok <n> ## <id>|<seq>|k=v;k=v… ## …` with the annotations sorted by key. -/
+namespace ObiVerif.Driver.C12
+open ObiVerif.Demux ObiVerif.Driver
+
+abbrev P := StateT (List String) Option
+
+def tok : P String := fun s => match s with | [] => none | t :: r => some (t, r)
+def pNat : P Nat := do let t ← tok; (t.toNat? : Option Nat)
+def pInt : P Int := do let t ← tok; (t.toInt? : Option Int)
+def pHex : P (List UInt8) := do let t ← tok; (unhex t : Option _)
+def pStr : P String := do let b ← pHex; pure (str b)
+def pLit (w : String) : P Unit := do let t ← tok; if t = w then pure () else failure
+
+def rep {α} (p : P α) : Nat → P (List α)
+  | 0 => pure []
+  | n + 1 => do let a ← p; let r ← rep p n; pure (a :: r)
+
+def pMode : P Mode := do
+  let t ← tok
+  match t with
+  | "s" => pure .strict | "h" => pure .hamming | "i" => pure .indel | _ => failure
+
+def pSample : P Sample := do
+  let f ← pHex; let r ← pHex; let n ← pStr; let e ← pStr; let x ← pHex
+  pure ⟨f, r, n, e, if x.isEmpty then [] else [("note", str x)]⟩
+
+/-- a marker as declared; the tag lengths are filled by `checkTagLength` (none = sheet rejected) -/
+def pMarker : P (Option Marker) := do
+  let fp ← pStr; let rp ← pStr
+  let fsp ← pInt; let rsp ← pInt
+  let fdl ← pNat; let rdl ← pNat
+  let fin ← pInt; let rin ← pInt
+  let mode ← pMode
+  let _ ← pInt; let _ ← pInt; let _ ← pNat; let _ ← pNat
+  let ns ← pNat
+  let samples ← rep pSample ns
+  match checkTagLength samples, noDupPairs samples with
+  | some (fl, rl), true =>
+    pure (some ⟨fp, rp, fl, rl, fsp, rsp, UInt8.ofNat fdl, UInt8.ofNat rdl, fin, rin, mode, mode, samples⟩)
+  | _, _ => pure none
+
+def pTriple : P (Int × Int × Int) := do
+  let b ← pInt; let e ← pInt; let k ← pInt; pure (b, e, k)
+
+def pHitList : P (List (Int × Int × Int)) := do let n ← pNat; rep pTriple n
+
+def pHits : P Hits := do
+  let f ← pHitList; let cr ← pHitList; let r ← pHitList; let cf ← pHitList
+  pure ⟨f, cr, r, cf⟩
+
+def insSorted (p : String × String) : List (String × String) → List (String × String)
+  | [] => [p]
+  | x :: xs => if p.1 ≤ x.1 then p :: x :: xs else x :: insSorted p xs
+
+def showRecord (r : Record) : String :=
+  let an := r.annots.foldr insSorted []
+  r.id ++ "|" ++ hex r.seq ++ "|" ++ ";".intercalate (an.map (fun p => p.1 ++ "=" ++ p.2))
+
+def showResult : R (List Record) → String
+  | .error .panic => "panic"
+  | .error .fatal => "fatal"
+  | .ok rs => "ok " ++ toString rs.length ++ " ## " ++ " ## ".intercalate (rs.map showRecord)
+
+def pDemux : P String := do
+  let _ ← tok; let _ ← pNat; let _ ← pInt; let _ ← pNat
+  let k ← pNat
+  let markers ← rep pMarker k
+  let id ← pStr
+  let seq ← pHex
+  pLit "exp"
+  let n ← pNat
+  let _ ← rep tok (10 * n)
+  pLit "hits"
+  let hits ← rep pHits k
+  let rest ← get
+  if !rest.isEmpty then failure
+  match markers.mapM (fun x => x) with
+  | none => pure "sheet-error"
+  | some ms => pure (showResult (extractMultiBarcode ms id seq hits))
+
+def run (line : String) : String :=
+  match words line with
+  | ["ham", a, b] =>
+    match unhex a, unhex b with
+    | some a, some b => toString (hamming a b)
+    | _, _ => "bad-op"
+  | ["lev", a, b] =>
+    match unhex a, unhex b with
+    | some a, some b => toString (levenshtein a b)
+    | _, _ => "bad-op"
+  | ["look", s, d] =>
+    match unhex s, d.toNat? with
+    | some s, some d => hex (lookForTag s (UInt8.ofNat d))
+    | _, _ => "bad-op"
+  | ["rescue", s, d, t, b, i] =>
+    match unhex s, d.toNat?, t.toInt?, b.toInt?, i.toInt? with
+    | some s, some d, some t, some b, some i =>
+      match lookForRescueTag s (UInt8.ofNat d) t b i with
+      | .ok x => "ok " ++ hex x
+      | .error .panic => "panic"
+      | .error .fatal => "fatal"
+    | _, _, _, _, _ => "bad-op"
+  | "demux" :: rest =>
+    match pDemux.run rest with
+    | some (r, _) => r
+    | none => "bad-op"
+  | _ => "bad-op"
 
 end ObiVerif.Driver.C12
